@@ -1,4 +1,4 @@
-//! Rewrite rules R0..R12 (DESIGN.md 2.1). Every rule is a syn visitor that emits text edits; a rule is
+//! Rewrite rules R0..R16 (DESIGN.md 2.1). Every rule is a syn visitor that emits text edits; a rule is
 //! re-run on the re-parsed text until it finds nothing more, so nested occurrences are handled.
 
 use crate::{apply_edits, br, nr, txt, Ctx, Edit};
@@ -21,6 +21,8 @@ pub fn run_all(text: &str, ctx: &Ctx, log: &mut BTreeMap<&'static str, usize>) -
         ("R11", r11),
         ("R14", r14),
         ("R13", r13),
+        ("R16", r16),
+        ("R15", r15),
         ("R5", r5),
         ("R4", r4),
         ("R1", r1),
@@ -996,4 +998,311 @@ impl<'a, 'ast> Visit<'ast> for R13<'a> {
 }
 fn r13(src: &str, f: &syn::File, _c: &Ctx, e: &mut Vec<Edit>) {
     R13 { src, edits: e }.visit_file(f);
+}
+
+// ---------------------------------------------------------------------------------------------- R16
+// a lazy iterator bound to a local and only ever used as `NAME.clone()`:
+//   let NAME = X.iter().filter(|c| P);  ...  NAME.clone().filter(..).collect()
+// -> the binding is dropped and every `NAME.clone()` is replaced by the chain text (the chain is pure: it borrows X and
+//    captures by reference, exactly what the clone of the lazy iterator does).
+struct LazyUses<'a> {
+    name: String,
+    clones: Vec<(usize, usize)>,
+    other: usize,
+    _p: std::marker::PhantomData<&'a ()>,
+}
+impl<'a, 'ast> Visit<'ast> for LazyUses<'a> {
+    fn visit_expr_method_call(&mut self, m: &'ast syn::ExprMethodCall) {
+        if m.method == "clone" && m.args.is_empty() {
+            if let Expr::Path(p) = &*m.receiver {
+                if p.path.is_ident(&self.name) {
+                    self.clones.push(nr(m));
+                    return;
+                }
+            }
+        }
+        visit::visit_expr_method_call(self, m);
+    }
+    fn visit_expr_path(&mut self, p: &'ast syn::ExprPath) {
+        if p.path.is_ident(&self.name) {
+            self.other += 1;
+        }
+    }
+}
+fn lazy_chain(e: &Expr) -> bool {
+    // X.iter() followed by one or more of filter / map / cloned, no terminal
+    let mut cur = e;
+    let mut stages = 0;
+    loop {
+        match cur {
+            Expr::MethodCall(m) => {
+                let name = m.method.to_string();
+                if name == "iter" && m.args.is_empty() {
+                    return stages > 0;
+                }
+                if name == "filter" || name == "map" || name == "cloned" || name == "filter_map" {
+                    stages += 1;
+                    cur = &*m.receiver;
+                    continue;
+                }
+                return false;
+            }
+            _ => return false,
+        }
+    }
+}
+struct R16<'a> {
+    src: &'a str,
+    edits: &'a mut Vec<Edit>,
+}
+impl<'a, 'ast> Visit<'ast> for R16<'a> {
+    fn visit_block(&mut self, b: &'ast syn::Block) {
+        for (i, st) in b.stmts.iter().enumerate() {
+            if let Stmt::Local(l) = st {
+                if let (Pat::Ident(pi), Some(init)) = (&l.pat, &l.init) {
+                    if init.diverge.is_none() && lazy_chain(&init.expr) {
+                        let mut u = LazyUses { name: pi.ident.to_string(), clones: vec![], other: 0, _p: std::marker::PhantomData };
+                        for later in &b.stmts[i + 1..] {
+                            u.visit_stmt(later);
+                        }
+                        if u.other == 0 && !u.clones.is_empty() {
+                            let chain = txt(self.src, &*init.expr).to_string();
+                            let (s, e) = nr(l);
+                            self.edits.push(Edit { start: s, end: e, text: String::new(), rule: "R16" });
+                            for (cs, ce) in u.clones {
+                                self.edits.push(Edit { start: cs, end: ce, text: chain.clone(), rule: "R16" });
+                            }
+                            return;
+                        }
+                    }
+                }
+            }
+        }
+        visit::visit_block(self, b);
+    }
+}
+fn r16(src: &str, f: &syn::File, _c: &Ctx, e: &mut Vec<Edit>) {
+    R16 { src, edits: e }.visit_file(f);
+}
+
+// ---------------------------------------------------------------------------------------------- R15
+// iterator pipelines whose adapters Verus cannot specify (filter, filter_map, fold, max, a range source) become the loop that
+// defines them.  SOURCE (`X.iter()` | `(a..b)`)  STAGE* (`cloned` | `filter(c)` | `map(c | path)` | `filter_map(c)`)
+// TERMINAL (`collect` to Vec / HashSet | `sum::<f32>()` | `fold(init, c)` | `max()`):
+//   { let mut out_: Vec<_> = Vec::new();
+//     for it0_ in X.iter() { let it1_ = it0_.clone(); let keep2_ = { let c = &it1_; P }; if keep2_ { let it3_ = { let e = it1_; F }; out_.push(it3_); } }
+//     out_ }
+// every closure body and every operand is copied verbatim; closure parameters become `let` bindings.
+enum Stage<'e> {
+    Cloned,
+    Filter(&'e syn::ExprClosure),
+    Map(&'e Expr),
+    FilterMap(&'e syn::ExprClosure),
+}
+enum Term<'e> {
+    Collect(Option<String>),
+    SumF32,
+    Fold(&'e Expr, &'e syn::ExprClosure),
+    Max,
+}
+enum Source {
+    Iter(String),
+    Range(String, String),
+}
+fn strip_paren(e: &Expr) -> &Expr {
+    match e {
+        Expr::Paren(p) => strip_paren(&p.expr),
+        _ => e,
+    }
+}
+fn parse_chain<'e>(src: &str, m: &'e syn::ExprMethodCall) -> Option<(Source, Vec<Stage<'e>>, Term<'e>)> {
+    let name = m.method.to_string();
+    let term = match name.as_str() {
+        "collect" if m.args.is_empty() => Term::Collect(m.turbofish.as_ref().map(|t| {
+            let s = txt(src, t).replace(' ', "");
+            let s = s.strip_prefix("::<").unwrap_or(&s).to_string();
+            s.strip_suffix('>').unwrap_or(&s).to_string()
+        })),
+        "sum" if m.args.is_empty() && m.turbofish.as_ref().map(|t| txt(src, t).contains("f32")).unwrap_or(false) => Term::SumF32,
+        "fold" if m.args.len() == 2 => match &m.args[1] {
+            Expr::Closure(c) if c.inputs.len() == 2 => Term::Fold(&m.args[0], c),
+            _ => return None,
+        },
+        "max" if m.args.is_empty() => Term::Max,
+        _ => return None,
+    };
+    let mut stages = vec![];
+    let mut cur: &Expr = &m.receiver;
+    let source;
+    loop {
+        match strip_paren(cur) {
+            Expr::MethodCall(mc) => {
+                let n = mc.method.to_string();
+                match n.as_str() {
+                    "iter" if mc.args.is_empty() => {
+                        source = Source::Iter(txt(src, &*mc.receiver).to_string());
+                        break;
+                    }
+                    "cloned" if mc.args.is_empty() => stages.push(Stage::Cloned),
+                    "filter" if mc.args.len() == 1 => match &mc.args[0] {
+                        Expr::Closure(c) if c.inputs.len() == 1 => stages.push(Stage::Filter(c)),
+                        _ => return None,
+                    },
+                    "filter_map" if mc.args.len() == 1 => match &mc.args[0] {
+                        Expr::Closure(c) if c.inputs.len() == 1 => stages.push(Stage::FilterMap(c)),
+                        _ => return None,
+                    },
+                    "map" if mc.args.len() == 1 => match &mc.args[0] {
+                        Expr::Closure(c) if c.inputs.len() != 1 => { let _ = c; return None }
+                        e => stages.push(Stage::Map(e)),
+                    },
+                    _ => return None,
+                }
+                cur = &mc.receiver;
+            }
+            Expr::Range(r) => {
+                if let (Some(a), Some(b), syn::RangeLimits::HalfOpen(_)) = (&r.start, &r.end, &r.limits) {
+                    source = Source::Range(txt(src, &**a).to_string(), txt(src, &**b).to_string());
+                    break;
+                }
+                return None;
+            }
+            _ => return None,
+        }
+    }
+    stages.reverse();
+    Some((source, stages, term))
+}
+fn bind_param(src: &str, p: &Pat, value: &str) -> String {
+    if is_simple_ident_pat(p) {
+        return format!("let {} = {};", txt(src, p), value);
+    }
+    match destructure(src, p, value) {
+        Some((_b, lets)) => lets.join(" "),
+        None => format!("let {} = {};", txt(src, p), value),
+    }
+}
+struct R15<'a> {
+    src: &'a str,
+    edits: &'a mut Vec<Edit>,
+    /// type of the enclosing `let NAME: T = <chain>` or of the fn return (for a tail chain)
+    hint: Option<String>,
+}
+impl<'a> R15<'a> {
+    fn gen(&self, source: &Source, stages: &[Stage], term: &Term, hint: Option<&str>) -> Option<String> {
+        let needs = stages.iter().any(|s| matches!(s, Stage::Filter(_) | Stage::FilterMap(_)))
+            || matches!(term, Term::Fold(..) | Term::Max)
+            || matches!(source, Source::Range(..));
+        if !needs {
+            return None;
+        }
+        let src = self.src;
+        // container kind for collect
+        let coll = match term {
+            Term::Collect(tf) => {
+                // no annotation in reach: `Vec<_>` (if the context wants another container the unit does not compile: exit 2)
+                let t = tf.clone().or(hint.map(|h| h.replace(' ', ""))).unwrap_or_else(|| "Vec<_>".to_string());
+                if t.starts_with("Vec<") { Some(("Vec", t)) } else if t.starts_with("HashSet<") { Some(("HashSet", t)) } else { return None }
+            }
+            _ => None,
+        };
+        let mut body = String::new();
+        let mut closers = String::new();
+        let mut cur = "it0_".to_string();
+        let mut k = 0usize;
+        for st in stages {
+            k += 1;
+            match st {
+                Stage::Cloned => {
+                    body += &format!("let it{k}_ = {cur}.clone(); ", k = k, cur = cur);
+                    cur = format!("it{}_", k);
+                }
+                Stage::Filter(c) => {
+                    let b = bind_param(src, &c.inputs[0], &format!("&{}", cur));
+                    body += &format!("let keep{k}_ = {{ {b} {body_} }}; if keep{k}_ {{ ", k = k, b = b, body_ = txt(src, &*c.body));
+                    closers += "} ";
+                }
+                Stage::Map(e) => {
+                    match e {
+                        Expr::Closure(c) => {
+                            let b = bind_param(src, &c.inputs[0], &cur);
+                            body += &format!("let it{k}_ = {{ {b} {body_} }}; ", k = k, b = b, body_ = txt(src, &*c.body));
+                        }
+                        other => {
+                            body += &format!("let it{k}_ = {f}({cur}); ", k = k, f = txt(src, *other), cur = cur);
+                        }
+                    }
+                    cur = format!("it{}_", k);
+                }
+                Stage::FilterMap(c) => {
+                    let b = bind_param(src, &c.inputs[0], &cur);
+                    body += &format!("let opt{k}_ = {{ {b} {body_} }}; if let Some(it{k}_) = opt{k}_ {{ ", k = k, b = b, body_ = txt(src, &*c.body));
+                    closers += "} ";
+                    cur = format!("it{}_", k);
+                }
+            }
+        }
+        let head = match source {
+            Source::Iter(x) => format!("for it0_ in {}.iter()", x),
+            Source::Range(a, b) => format!("for it0_ in {}..{}", a, b),
+        };
+        let text = match term {
+            Term::Collect(_) => {
+                let (kind, t) = coll.unwrap();
+                let add = if kind == "Vec" { "push" } else { "insert" };
+                format!("{{ let mut out_: {t} = {kind}::new(); {head} {{ {body}out_.{add}({cur}); {closers}}} out_ }}", t = t, kind = kind, head = head, body = body, add = add, cur = cur, closers = closers)
+            }
+            Term::SumF32 => format!("{{ let mut acc_: f32 = -0.0; {head} {{ {body}acc_ = acc_ + {cur}; {closers}}} acc_ }}", head = head, body = body, cur = cur, closers = closers),
+            Term::Fold(init, c) => {
+                if !is_simple_ident_pat(&c.inputs[0]) {
+                    return None;
+                }
+                let acc = txt(src, &c.inputs[0]);
+                let b = bind_param(src, &c.inputs[1], &cur);
+                format!("{{ let mut {acc} = {init}; {head} {{ {body}{b} {acc} = {fb}; {closers}}} {acc} }}", acc = acc, init = txt(src, *init), head = head, body = body, b = b, fb = txt(src, &*c.body), closers = closers)
+            }
+            Term::Max => format!(
+                "{{ let mut max_: Option<_> = None; {head} {{ {body}max_ = match max_ {{ None => Some({cur}), Some(m_) => if {cur} >= m_ {{ Some({cur}) }} else {{ Some(m_) }} }}; {closers}}} max_ }}",
+                head = head, body = body, cur = cur, closers = closers
+            ),
+        };
+        Some(text)
+    }
+    fn try_call(&mut self, m: &syn::ExprMethodCall, hint: Option<&str>) -> bool {
+        if let Some((source, stages, term)) = parse_chain(self.src, m) {
+            if let Some(text) = self.gen(&source, &stages, &term, hint) {
+                let (s, e) = nr(m);
+                self.edits.push(Edit { start: s, end: e, text, rule: "R15" });
+                return true;
+            }
+        }
+        false
+    }
+}
+impl<'a, 'ast> Visit<'ast> for R15<'a> {
+    fn visit_local(&mut self, l: &'ast syn::Local) {
+        if let Some(init) = &l.init {
+            let ty = match &l.pat {
+                Pat::Type(pt) => Some(txt(self.src, &*pt.ty).to_string()),
+                _ => None,
+            };
+            if let Expr::MethodCall(m) = &*init.expr {
+                if self.try_call(m, ty.as_deref()) {
+                    return;
+                }
+            }
+        }
+        visit::visit_local(self, l);
+    }
+    fn visit_expr_method_call(&mut self, m: &'ast syn::ExprMethodCall) {
+        let h = self.hint.clone();
+        if self.try_call(m, None) {
+            return;
+        }
+        let _ = h;
+        visit::visit_expr_method_call(self, m);
+    }
+}
+fn r15(src: &str, f: &syn::File, _c: &Ctx, e: &mut Vec<Edit>) {
+    R15 { src, edits: e, hint: None }.visit_file(f);
 }
